@@ -120,14 +120,22 @@ def Env.lookup (env : Env) (name : String) : Option Def := env.find? (fun d => d
 
 /-! ### `TagResolver`
 
-  Result type `Option (Option Tag)`: the outer `none` means "out of fuel".  The Rust functions
-  are plain recursion without any cycle detection: on a reference cycle that is actually followed
-  (`A ::= B`, `B ::= A`; `R ::= CHOICE { x R, y INTEGER }`) they recurse until the stack overflows
-  and the process aborts (no unwinding).  Fuel is spent on every call; `TagsLemmas` shows that the
-  result does not depend on the fuel once it is an answer (`resolveTypeTag_mono`) and gives an
-  explicit sufficient amount for acyclic environments (`resolveTypeTag_total`).
+  `resolve_tag` keeps a stack `visiting` of the names whose tag is being resolved (repaired code;
+  before, the two functions were plain recursion without any cycle detection and a reference
+  cycle that is actually followed — `A ::= B`, `B ::= A`; `R ::= CHOICE { x R, y INTEGER }` —
+  overflowed the stack): a reference that leads back to a name on the stack has no tag (`None`),
+  the name is pushed before and popped after its definition is looked at.  Here the stack is the
+  argument `visiting`; "pop" is the return.
 
-  Imports (`model.imports` / `scope`) are not modelled: the environment is one module. -/
+  Result type `Option (Option Tag)`: the inner option is the Rust result, the outer `none` means
+  "out of fuel".  Fuel is a device of the mirror (one unit per call, as in the parser mirror); it
+  is never exhausted: `TagsLemmas.resolveTypeTag_total` gives, for EVERY module and type, the
+  explicit bound `depth t + (definitions not on the stack) · (deepest definition + 1)`, which the
+  amount `defaultFuel` used by the driver exceeds (`defaultFuel_sufficient`), and the answer does
+  not depend on the amount (`resolveTypeTag_mono`).
+
+  Imports (`model.imports` / `scope`) are not modelled: the environment is one module, the key
+  `(module name, type name)` of the Rust stack is the type name. -/
 
 /-- `.map(|v| v.tag().or_else(|| self.resolve_type_tag(v.r#type()))).collect::<Option<Vec<Tag>>>()`:
     left to right, stops at the first alternative without a tag (later ones are not evaluated) -/
@@ -145,27 +153,30 @@ def collectTags (rec : Ty → Option (Option Tag)) :
 def rootAlts (alts : List (Option Tag × Ty)) (extAfter : Option Nat) : List (Option Tag × Ty) :=
   alts.take (match extAfter with | some e => e + 1 | none => alts.length)
 
-/-- `TagResolver::resolve_type_tag`; the `ref` arm is `resolve_tag` inlined:
-    `definitions.find(name).and_then(|d| d.tag.or_else(|| self.resolve_type_tag(&d.type)))` -/
-def resolveTypeTag (env : Env) : Nat → Ty → Option (Option Tag)
-  | 0, _ => none
-  | _ + 1, .builtin k => some (some (defaultTag k))
-  | fuel + 1, .ref name =>
+/-- `TagResolver::resolve_type_tag_visiting`; the `ref` arm is `resolve_tag_visiting` inlined:
+    `if visiting.contains(&key) { return None }; visiting.push(key);`
+    `definitions.find(name).and_then(|d| d.tag.or_else(|| self.resolve_type_tag_visiting(&d.type, visiting)))`;
+    `visiting.pop()` -/
+def resolveTypeTag (env : Env) : Nat → List String → Ty → Option (Option Tag)
+  | 0, _, _ => none
+  | _ + 1, _, .builtin k => some (some (defaultTag k))
+  | fuel + 1, visiting, .ref name =>
+    if visiting.contains name then some none else
     match env.lookup name with
     | none => some none
     | some d =>
       match d.tag with
       | some t => some (some t)
-      | none => resolveTypeTag env fuel d.ty
-  | fuel + 1, .choice alts extAfter =>
-    match collectTags (resolveTypeTag env fuel) (rootAlts alts extAfter) with
+      | none => resolveTypeTag env fuel (name :: visiting) d.ty
+  | fuel + 1, visiting, .choice alts extAfter =>
+    match collectTags (resolveTypeTag env fuel visiting) (rootAlts alts extAfter) with
     | none => none
     | some none => some none
     | some (some ts) => some (minTag ts)
 
-/-- `TagResolver::resolve_tag(name)` -/
+/-- `TagResolver::resolve_tag(name)`: starts with an empty stack -/
 def resolveTag (env : Env) (fuel : Nat) (name : String) : Option (Option Tag) :=
-  resolveTypeTag env fuel (.ref name)
+  resolveTypeTag env fuel [] (.ref name)
 
 /-! ### component lists -/
 
@@ -252,19 +263,12 @@ def rustTypeTag (env : Env) (fuel : Nat) (f : Field) : Option (Option Tag) :=
   | .choice alts e =>
     match f.tag with
     | some t => some (some t)
-    | none => resolveTypeTag env fuel (.choice alts e)
+    | none => resolveTypeTag env fuel [] (.choice alts e)
 
 /-- `asn_fields_to_rust_fields` for one component -/
 def toRField (env : Env) (fuel : Nat) (f : Field) : Option RField :=
   (rustTypeTag env fuel f).map fun tt =>
     { name := f.name, tag := f.tag, typeTag := tt, kind := rkindOf f.ty, presence := f.presence }
-
-/-- all reference names occurring in a type -/
-def Ty.refs : Nat → Ty → List String
-  | 0, _ => []
-  | _ + 1, .builtin _ => []
-  | _ + 1, .ref n => [n]
-  | fuel + 1, .choice alts _ => (alts.map fun a => Ty.refs fuel a.2).flatten
 
 mutual
 /-- nesting depth of a type (≥ 1) -/
@@ -283,18 +287,14 @@ def envDepth : Env → Nat
   | [] => 0
   | d :: rest => max d.ty.depth (envDepth rest)
 
-/-- fuel the driver runs the resolver with: enough for every acyclic module
-    (`TagsLemmas.defaultFuel_sufficient`); if it runs out the real resolver is in a cycle -/
+/-- the definitions whose name is not on the stack: the references that can still be followed -/
+def unvisited (env : Env) (visiting : List String) : Nat :=
+  (env.filter fun d => !visiting.contains d.name).length
+
+/-- fuel the driver runs the resolver with: enough for every module and type
+    (`TagsLemmas.defaultFuel_sufficient`) -/
 def defaultFuel (env : Env) (t : Ty) : Nat :=
   t.depth + (env.length + 1) * (envDepth env + 1)
-
-/-- `to_rust()` converts *every* definition of the module and calls `resolve_tag` for every type
-    reference it meets (component types, CHOICE alternatives, aliases), whether or not the tag is
-    needed.  `true` iff all those calls return. -/
-def stage1Terminates (env : Env) (comps : List Field) : Bool :=
-  let tys := comps.map (·.ty) ++ env.map (·.ty)
-  tys.all fun t => (Ty.refs t.depth t).all fun n =>
-    (resolveTag env (defaultFuel env (.ref n)) n).isSome
 
 /-! ### stage 2: `generate/walker.rs` -/
 
@@ -403,20 +403,22 @@ def allSome {α : Type} : List (Option α) → Option (List α)
   | none :: _ => none
   | some a :: rest => (allSome rest).map (a :: ·)
 
-/-- Outer `none`: stage 1 does not terminate (stack overflow, the process aborts).
+/-- Outer `none`: the resolver mirror ran out of fuel — never (`TagsLemmas.emit_isSome`; stage 1
+    always terminates).
     * `panic`: a marker in an empty list — stage 1 prints `extensible_after(fields[index].name())`
       with `index = 0` (`generate/rust.rs: add_definition`), index out of bounds;
-    * `err other`: a `Complex` type whose tag could not be resolved is printed as `complex(Name)`;
-      the attribute parser of stage 2 insists on `complex(Name, tag(..))` ⇒ compile error;
-    * otherwise stage 2 runs `write_constraints` on the re-read item. -/
+    * `err other`: a `Complex` type whose tag could not be resolved (undefined reference, or a
+      reference cycle) is printed as `complex(Name)`; the attribute parser of stage 2 insists on
+      `complex(Name, tag(..))` ⇒ compile error;
+    * otherwise stage 2 runs `write_constraints` on the re-read item.
+    (`to_rust()` also resolves the tags inside the other definitions of the module; those calls
+    return as well and do not influence the item under test.) -/
 def emit (env : Env) (o : EncodingOrdering) (c : Components) : Option (Outcome Emitted) :=
-  if !stage1Terminates env c.fields then none
-  else
-    match allSome (c.fields.map fun f => toRField env (defaultFuel env f.ty) f) with
-    | none => none
-    | some rfields =>
-      if (extensionAfter c.markers).isSome && rfields.isEmpty then some .panic
-      else if rfields.any (fun f => f.kind == .complex && f.typeTag.isNone) then some (.err .other)
-      else some (writeConstraints o rfields (extensionAfter c.markers))
+  match allSome (c.fields.map fun f => toRField env (defaultFuel env f.ty) f) with
+  | none => none
+  | some rfields =>
+    if (extensionAfter c.markers).isSome && rfields.isEmpty then some .panic
+    else if rfields.any (fun f => f.kind == .complex && f.typeTag.isNone) then some (.err .other)
+    else some (writeConstraints o rfields (extensionAfter c.markers))
 
 end Asn1Verif.Codegen.Tags
